@@ -380,6 +380,19 @@ class G(GA.G):
 
 
 def gen(rng, dim=None, depth=None, **opts):
+    """one architecture without dead nodes (every node reaches the output)"""
+    while True:
+        spec = _gen(rng, dim, depth, **opts)
+        live = {spec['out'][0]}
+        for i in range(len(spec['nodes']) - 1, -1, -1):
+            if i in live and 'src' in spec['nodes'][i]:
+                s = spec['nodes'][i]['src']
+                live.update([s] if isinstance(s, int) else s)
+        if len(live) == len(spec['nodes']):
+            return spec
+
+
+def _gen(rng, dim=None, depth=None, **opts):
     dim = dim or rng.choice([1, 2])
     g = G(rng, dim, opts)
     g.excl = []
